@@ -1216,6 +1216,24 @@ def chunks_from_arrays(arrays):
     return tuple(result)
 
 
+def concatenate_shaped(arrays, shape):
+    """Concatenate a flat, C-ordered list of blocks laid out on a grid of ``shape`` blocks
+
+    >>> x = np.array([[1, 2]])
+    >>> concatenate_shaped([x, x, x, x], (2, 2))
+    array([[1, 2, 1, 2],
+           [1, 2, 1, 2]])
+    """
+
+    def nest(seq, shape):
+        if len(shape) <= 1:
+            return list(seq)
+        n = len(seq) // shape[0]
+        return [nest(seq[i * n : (i + 1) * n], shape[1:]) for i in range(shape[0])]
+
+    return concatenate3(nest(arrays, shape))
+
+
 def concatenate3(arrays):
     """Recursive np.concatenate
 
